@@ -702,6 +702,12 @@ func c14Invocation(t *Tape, tc *TreeCase, kind string) *c07Case {
 		if t.Draw(2) == 1 {
 			tc.Tokens[0] = append(tc.Tokens[0], "--zzz")
 		}
+		if t.Draw(4) == 0 {
+			// a help token further along: the version flag is the first argument, so the version string is printed
+			// (whether a help text comes with it is not looked at)
+			lvl := t.Draw(len(tc.Path))
+			tc.Tokens[lvl] = append(tc.Tokens[lvl], c.HelpTok)
+		}
 	}
 	c.Stream = drawStream(t)
 	c.Ambient = drawAmbient(t)
